@@ -209,3 +209,53 @@ class ElementInActiveFormattingElements:
         if want is None:
             return result is False
         return same_object(result, want)
+
+
+# ------------------------------------------------------------------------------------------- bounded: foster parenting
+def fp_stack(S):
+    """html + up to DEPTH elements; each may have a parent (some other node object) or none"""
+    nodes = stack(S)
+    for i, n in enumerate(nodes):
+        n.fields["parent"] = S.one_of(None, lambda i=i: node(S, "parent%d" % i))
+    return nodes
+
+
+def foster_place(nodes):
+    """the standard's "appropriate place for inserting a node" under foster parenting: with the last table on the stack:
+    its parent, just before the table, if it has one, else the element before it on the stack; without a table: the first
+    element of the stack (html), at the end"""
+    i = len(nodes) - 1
+    while i >= 0:
+        if nodes[i].name == "table":
+            if nodes[i].parent is not None:
+                return (nodes[i].parent, nodes[i])
+            return (nodes[i - 1], None)
+        i = i - 1
+    return (nodes[0], None)
+
+
+@contract(TB + ".getTableMisnestedNodePosition")
+class GetTableMisnestedNodePosition:
+    props = ("C01", "C04")
+
+    def inputs(S):
+        nodes = fp_stack(S)
+        tb = builder(S)
+        tb.fields["openElements"] = S.list(nodes)
+        return dict(self=tb, nodes=S.list(nodes))
+
+    @requires
+    def a_table_is_not_the_root(nodes):
+        # the bottom of the stack is the html element (file-level precondition)
+        return nodes[0].name == "html"
+
+    @ensures("C01", "C04")
+    @bounded(SCOPE_BOUND + "; each element with or without a parent node")
+    def is_the_foster_parent_place(nodes, result):
+        want = foster_place(nodes)
+        got_parent, got_before = result
+        if not same_object(got_parent, want[0]):
+            return False
+        if want[1] is None:
+            return got_before is None
+        return same_object(got_before, want[1])
